@@ -400,7 +400,7 @@ Definition run_acts (s : state) (l : list act) : state := fold_left do_act l s.
 (* operations *)
 Inductive op :=
 | Enable (i : nat) | Disable (i : nat) | SwFlip (i : nat) | SwRelease (i : nat) | BallSearch (i : nat)
-| Ev (e : bytes) | SwOn (w : Z) | SwOff (w : Z) | Advance (secs : Z).
+| Ev (e : bytes) | SwOn (w : Z) | SwOff (w : Z) | Advance (secs : Z) | AdvanceMs (ms : Z).
 
 Definition ids : list nat := seq 0 (length cfg).
 Definition sel (p : dcfg -> bool) (f : nat -> act) : list act :=
@@ -445,6 +445,7 @@ Definition acts_of (s : state) (o : op) : list act :=
         sel (fun c => is_flip c && oeqb (d_eos c) w) AEosOff
       else []
   | Advance n => due_acts s (now s + 1000 * n)
+  | AdvanceMs n => due_acts s (now s + n)
   end.
 
 Definition step (s : state) (o : op) : state :=
@@ -497,6 +498,14 @@ Fixpoint trace (s : state) (l : list op) : list (list (list Z) * list (list Z)) 
 End WithCfg.
 
 Definition c10_run (inp : list dcfg * list op) := trace (fst inp) (init (fst inp)) (snd inp).
+
+(* Platforms like FAST / OPP write a rule over an existing one without complaint; virtual.py asserts.  The rule table
+   is the same function of the calls on both ([install] computes the overwritten table and, separately, the flag);
+   an overwriting platform just never raises.  [ow = true]: the harness switched the assertion off. *)
+Definition mask_err (ow : bool) (o : list (list Z) * list (list Z)) : list (list Z) * list (list Z) :=
+  if ow then (firstn 7 (fst o) ++ [[0]], snd o) else o.
+Definition c10_run_p (inp : (bool * list dcfg) * list op) :=
+  map (mask_err (fst (fst inp))) (c10_run (snd (fst inp), snd inp)).
 Definition obs_eqb (a b : list (list Z) * list (list Z)) : bool :=
   zss_eqb (fst a) (fst b) && zss_eqb (snd a) (snd b).
 Definition c10_out_eqb := list_eqb obs_eqb.
